@@ -17,6 +17,19 @@ CHECKS = {
         technique="Lean 4 proof (refinement of a tree-selection spec by the stack machine, structural induction) + "
                   "in-process differential correspondence, exhaustive on small directive sequences",
         ref="DESIGN.md §6 C17"),
+    "C05": dict(
+        text="Lean 4 theorems (CbProps/C05.lean) about flatIndex, a line-by-line mirror of Variable::calculate_flat_index: "
+             "succeeds iff arity matches and every index is inside its dimension (any number of dimensions), equals the "
+             "row-major address, 0 <= k < size, injective and surjective on in-range tuples, rejected store produces no "
+             "state, store/read-back laws. Tie: in-process calculate_flat_index vs flatIndex exhaustively on all shapes of "
+             "<=3 dims with extents 1..5 and all index tuples in [-2,extent+2]; end-to-end access sequences through local, "
+             "global, parameter, struct-member, pointer, checked and try paths vs the Lean flat store.",
+        note="Trusted: Lean kernel; harness h_flat.cpp; generators. The other index computations in the interpreter "
+             "(array.cpp Horner form, member paths) are covered only by the end-to-end correspondence (sampled in quick). "
+             "array_get/array_set raw-memory built-ins are not covered. Known findings: 2-D/3-D struct member arrays.",
+        technique="Lean 4 proof (induction over dimension lists; loop = row-major; bijection) + exhaustive in-process "
+                  "correspondence + end-to-end differential runs",
+        ref="DESIGN.md §6 C05"),
 }
 
 PENDING = {}
